@@ -236,3 +236,76 @@ def value_cases(value, atoms=()):
         return [(value.values[0], tuple(atoms) + tuple(atoms_of(value.values[0], True)))] + \
             value_cases(value.values[1], tuple(atoms) + tuple(atoms_of(value.values[0], False)))
     return [(value, tuple(atoms))]
+
+
+def template_parts(func, expr, depth=0):
+    """text template denoted by expr as a list of ('lit', text) / ('hole', expression) parts, whatever the spelling
+    (%-format of a constant, f-string, str.format with plain fields, + concatenation, a local bound once); None if unknown"""
+    if depth > 6:
+        return None
+    if isinstance(expr, ast.Constant) and isinstance(expr.value, str):
+        return [("lit", expr.value)]
+    if isinstance(expr, ast.Name):
+        defs = local_assignments(func.node, expr.id) if func is not None else []
+        if len(defs) == 1:
+            return template_parts(func, defs[0], depth + 1)
+        return [("hole", expr)]
+    if isinstance(expr, ast.JoinedStr):
+        out = []
+        for p0 in expr.values:
+            if isinstance(p0, ast.Constant):
+                out.append(("lit", str(p0.value)))
+            elif isinstance(p0, ast.FormattedValue) and p0.format_spec is None and p0.conversion in (-1, 115):
+                sub = template_parts(func, p0.value, depth + 1)
+                if sub is None:
+                    return None
+                out += sub
+            else:
+                return None
+        return _merge_lits(out)
+    if isinstance(expr, ast.BinOp) and isinstance(expr.op, ast.Add):
+        l, r = template_parts(func, expr.left, depth + 1), template_parts(func, expr.right, depth + 1)
+        return None if l is None or r is None else _merge_lits(l + r)
+    if isinstance(expr, ast.BinOp) and isinstance(expr.op, ast.Mod) and isinstance(expr.left, ast.Constant) and isinstance(expr.left.value, str):
+        fmt = expr.left.value
+        args = expr.right.elts if isinstance(expr.right, ast.Tuple) else [expr.right]
+        if fmt.count("%s") != len(args) or fmt.count("%") != len(args):
+            return None
+        pieces = fmt.split("%s")
+        out = []
+        for i, piece in enumerate(pieces):
+            out.append(("lit", piece))
+            if i < len(args):
+                sub = template_parts(func, args[i], depth + 1)
+                if sub is None:
+                    return None
+                out += sub
+        return _merge_lits(out)
+    if isinstance(expr, ast.Call) and isinstance(expr.func, ast.Attribute) and expr.func.attr == "format" and not expr.keywords \
+            and isinstance(expr.func.value, ast.Constant) and isinstance(expr.func.value.value, str):
+        fmt = expr.func.value.value
+        if fmt.count("{}") != len(expr.args) or fmt.count("{") != len(expr.args) or fmt.count("}") != len(expr.args):
+            return None
+        pieces = fmt.split("{}")
+        out = []
+        for i, piece in enumerate(pieces):
+            out.append(("lit", piece))
+            if i < len(expr.args):
+                sub = template_parts(func, expr.args[i], depth + 1)
+                if sub is None:
+                    return None
+                out += sub
+        return _merge_lits(out)
+    return [("hole", expr)]
+
+
+def _merge_lits(parts):
+    out = []
+    for k, v in parts:
+        if k == "lit" and v == "":
+            continue
+        if k == "lit" and out and out[-1][0] == "lit":
+            out[-1] = ("lit", out[-1][1] + v)
+        else:
+            out.append((k, v))
+    return out
